@@ -85,11 +85,13 @@ CHECKS = {
         design='5/C07', engine='E2+E1'),
     'C12': dict(
         level='model_checking',
-        technique='symbolic execution of the real expr_simp/eval_expr/eval_instr with the per-node memo flags replaced by symbolic booleans (one-step obligation instead of histories) + structural frame-condition monitor; z3',
+        technique='symbolic execution of the real expr_simp/eval_expr/eval_instr with the per-node memo flags replaced by symbolic booleans (one-step obligation instead of histories) + structural frame-condition monitor; symbolic execution of the real decoder/lifter/assembler twice per path with SMT equality of the two results and table fingerprints; z3',
         text='Partial claim. No histories are enumerated: (b) the memo flags is_eval/simp are replaced, by a harness-side descriptor, with one symbolic boolean per node constrained only by what an honest '
              'earlier call can leave behind; the result of the probe call under ANY admissible flags must be structurally equal (SMT) to its result with all flags clear, for all constants; a counterexample is turned '
              'into a concrete two-call history and replayed. (a) frame condition on every path incl. raising ones: arguments, machine state and other machines structurally unchanged. '
-             'Not addressed: on-disk PLY parser tables, general histories up to 50 calls, dis/asm/lift APIs.',
+             '(c) dis / lift / asm: per path of the symbolic decoder exploration, the same symbolic bytes are decoded and lifted twice around a fixed interleaving of other calls (other decodes incl. a truncated one, assemblies incl. raising ones): '
+             'the second instruction and assignment list equal the first for all byte values (SMT), the byte container and the instruction object are unchanged, and a deep fingerprint of the opcode trie, mnemonic objects, ModRM/SIB, register and lifter tables is unchanged after every row; '
+             'the same for asm(line) with symbolic numbers. Not addressed: on-disk PLY parser tables, general histories up to 50 calls.',
         note='Trusted: z3, SInt proxy, the admissibility predicate for memo flags (stated in evidence bounds). Clauses about the parser-table cache directory and CPython heap aliasing are outside the claim.',
         design='5/C12', engine='E2'),
     'C17': dict(
